@@ -25,22 +25,26 @@ func init() {
 			"M-lowest — mergedEnumerate replaces the merge candidate only on the true edge of Less(new candidate, current lowest). " +
 			"E-sorted — a leaf enumerator of the C01 backends that does not iterate a sorted.KeyValue (memory, files) sorts the very slice it ranges over for its sends, before the sends. " +
 			"E-refill — filtering re-enumerators, computed over every dest-owning function of every implementer of BlobEnumerator (today: overlay only): a loop that starts a sub-enumeration on a fresh channel (directly or through a literal it starts), drains that channel in a nested receive loop that sends on dest on some iterations only, and goes round again. The integer variables of the round are classified by how they evolve, not by name or form (send counter: 0 before the loop and +1 exactly in the blocks entered when an element was sent on dest, or the mirror-image budget that starts at limit and is decremented there; per-round receive counter: 0 at the start of each round and +1 once per iteration of the receive loop; registers and captured variables alike), and the code before and after the receive loop is then evaluated in every world with limit 1..6, 0..limit sent before the round, R requested, 0..R received, 0..received sent, following both edges of every branch that cannot be evaluated. Decided per refill loop: (request) every round asks for at least 1 and at most limit-sent elements; (exit) every return that can report success lies only in worlds where the page is full or this round received fewer than this round asked for; (progress) the loop goes round again only in worlds where this round received something; (cursor) on every path to the next round the cursor passed to the sub-enumeration is Ref.String() of a variable that every iteration of the receive loop overwrites with the received ref (last received, not last sent). Shapes that cannot be followed (elements received through a helper or peeker, receive loop left by a success return or break, cursor assigned at several places) are reported undecided. " +
-			"NOT decided: for E-refill: that the sub-enumeration's error is examined before exhaustion is concluded, that the filter itself is right (O-tomb), enumerating pagers that are not enumerators (blobserver.EnumerateAllFrom), and non-refilling filters; byte-for-byte equality of fetched data, size correctness, that a sorted.KeyValue iterator yields ascending keys (C10) or that the comparator used by a sort call is the blobref text order, that the bypass conditions around the cursor guard (first-iteration flags, after != \"\") are right, cursor semantics of cloud back ends (s3, gcs, azure, mongo, remote: E-close only), duplicate-receive no-op, any statement about histories, compositions or paging completeness. Those need execution.",
+			"S-sub-bound / S-sub-neg / S-sub-forward — the ranged-fetch clause (a ranged fetch returns exactly the requested sub-range, never bytes beyond the blob), over every declared SubFetch method of every implementer of blob.SubFetcher (exhaustive by interface; promoted methods are the embedded implementer's; today memory, files(+localdisk), diskpacked, blobpacked, proxycache, and outside the quantifier s3, gcs, azure), each followed into the module functions it hands offset/length to. Integer values are read as linear forms over the leaves offset, length, size (the index-row field that the type's own Fetch reports as the blob's size, of a row looked up with the ref; or the size result of Fetch(ref)) and opaque leaves, integer conversions being transparent, so `a > s-b` and `a+b > s` are the same guard. S-sub-bound, per reader-building site (io.NewSectionReader, io.LimitReader + Seek(offset, io.SeekStart)/io.CopyN(_, r, offset), a SubFetch call on another store, and every success return that hands out a reader built by none of these): the position is offset (plus, for a container larger than the blob — diskpacked's pack file, blobpacked's zip — a base taken from the index row); where the position has such a base the length operand must, on every path (phi edges and helper returns followed), be either size-offset, or length itself on a path dominated by a guard whose leaf set contains offset, length and size and whose sign says offset+length <= size — a guard relating length to size without the offset is reported as 'range cap ignores the offset', a capped value without the offset as such; where the object is the blob itself (memory's slice looked up by ref, files' file opened by blobPath(ref), a Fetch(ref) result) its end bounds the read and only 'positioned at offset on every path unless offset == 0' and 'limited by a value derived from length' are required; sites reachable only with a negative offset/length (the whole-blob mode of a shared fetch helper) are discharged by reference to S-sub-neg; a success return that hands out a reader depending on neither offset nor length is a violation. S-sub-neg, per implementer: every such site is dominated — in its own function, in a caller on the chain from SubFetch, or through the nil error of a helper all of whose success returns are so dominated — by offset >= 0 and length >= 0, and the rejecting edge of each guard leads to a return of blob.ErrNegativeSubFetch; pure forwarders discharge by contract. S-sub-forward, per SubFetch call whose position has no container base: ref, offset and length are passed on unchanged (identity for the ref, the linear form exactly `offset` / `length`); and every store field SubFetch reads from is one the type's Fetch reads from. Implementers outside the C01 quantifier (s3, gcs, azure: the range is served by a remote API) are checked at dependence level only (ref, offset and length all reach calls that leave the module; those calls lie behind the non-negative tests) and a failure there is recorded as a note, not as a violation (today: azure's SubFetch passes a negative length on to Client.GetPartial, which then returns the rest of the object instead of blob.ErrNegativeSubFetch). All arithmetic claims are at leaf-set and sign level: no overflow (offset+length wrapping), no value ranges. " +
+			"NOT decided: for the S-sub rules: that the bytes returned equal bytes[offset:min(offset+length,size)] (needs execution), integer overflow of offset+length, that the index row's offset/size are right, that offset > size is rejected (ErrOutOfRangeOffsetSubFetch), the order and conditions under which a wrapper tries its stores, the error a failed Seek/CopyN produces, io.LimitedReader/SectionReader values built as struct literals (reported undecided), what a remote range API returns; for E-refill: that the sub-enumeration's error is examined before exhaustion is concluded, that the filter itself is right (O-tomb), enumerating pagers that are not enumerators (blobserver.EnumerateAllFrom), and non-refilling filters; byte-for-byte equality of fetched data, size correctness, that a sorted.KeyValue iterator yields ascending keys (C10) or that the comparator used by a sort call is the blobref text order, that the bypass conditions around the cursor guard (first-iteration flags, after != \"\") are right, cursor semantics of cloud back ends (s3, gcs, azure, mongo, remote: E-close only), duplicate-receive no-op, any statement about histories, compositions or paging completeness. Those need execution.",
 		RuleDocs: map[string]string{
-			"E-close":  "every declared EnumerateBlobs/StreamBlobs method (exhaustive over implementers) + every static callee that receives dest: dest is closed exactly once on every path to every non-panic exit (close, defer, literal that closes, or delegation to a checked callee)",
-			"E-cursor": "enumerators of the C01 backends + index + the merged-enumerate helpers: leaf: each send is skipped in-iteration on the key<=cursor (or key==cursor after Find(cursor)) edge of a comparison against a value built only from `after`; merge: cursor forwarded to all sub-enumerations; forwarder: cursor argument built only from `after`",
-			"E-limit":  "same instance set: leaf/merge: a counter-vs-limit comparison with a stop edge that reaches no send, in the send's loop, polarity count>=limit, counter updated on the send path; forwarder: limit argument derived from `limit`",
-			"S-route":  "shard: every read index of shardStorage.shards depends on shardNum; shardNum depends only on the ref and len(shards); shard(b) callers pass b on; batchedShards files refs under shardNum(ref) and pairs shards[k] with m[k]",
-			"O-tomb":   "overlay: nil-error ReceiveBlob dominated by upper.ReceiveBlob ok and (deleted!=nil => deleted.Delete(ref) ok); nil-error RemoveBlobs = CommitBatch of a batch that Sets each ref; reads gated by isDeleted==false; isDeleted true only on Get ok; key agreement Ref.String()",
-			"M-dedup":  "mergedEnumerate: discard predicate means ref <= lastSent (evaluated symbolically); Take only under predicate true on the same peeker; filter before candidate selection; lastSent recorded in the sending iteration",
-			"E-sorted": "leaf enumerators of the C01 backends whose elements do not come from a sorted.KeyValue iterator (memory: map keys, files: directory listing): the slice ranged over for the sends is the argument of a sort/slices sorting call that dominates the send",
-			"M-lowest": "mergedEnumerate: every Ref.Less-controlled edge into the assignment of the merge candidate is the true edge of Less(candidate, current lowest)",
-			"E-refill": "every loop of a dest-owning enumerator function (all implementers of BlobEnumerator + dest delegates) that starts a sub-enumeration, drains it in a nested receive loop that sends on dest on some iterations only, and repeats: evaluated in all worlds limit 1..6 x sent-before x requested x received x sent-now: request in [1, limit-sent]; success returns only where page full or received < requested by this round; next round only where received >= 1; next cursor = Ref.String() of the last ref received (overwritten in every receive iteration) on every path to the next round",
+			"E-close":       "every declared EnumerateBlobs/StreamBlobs method (exhaustive over implementers) + every static callee that receives dest: dest is closed exactly once on every path to every non-panic exit (close, defer, literal that closes, or delegation to a checked callee)",
+			"E-cursor":      "enumerators of the C01 backends + index + the merged-enumerate helpers: leaf: each send is skipped in-iteration on the key<=cursor (or key==cursor after Find(cursor)) edge of a comparison against a value built only from `after`; merge: cursor forwarded to all sub-enumerations; forwarder: cursor argument built only from `after`",
+			"E-limit":       "same instance set: leaf/merge: a counter-vs-limit comparison with a stop edge that reaches no send, in the send's loop, polarity count>=limit, counter updated on the send path; forwarder: limit argument derived from `limit`",
+			"S-route":       "shard: every read index of shardStorage.shards depends on shardNum; shardNum depends only on the ref and len(shards); shard(b) callers pass b on; batchedShards files refs under shardNum(ref) and pairs shards[k] with m[k]",
+			"O-tomb":        "overlay: nil-error ReceiveBlob dominated by upper.ReceiveBlob ok and (deleted!=nil => deleted.Delete(ref) ok); nil-error RemoveBlobs = CommitBatch of a batch that Sets each ref; reads gated by isDeleted==false; isDeleted true only on Get ok; key agreement Ref.String()",
+			"M-dedup":       "mergedEnumerate: discard predicate means ref <= lastSent (evaluated symbolically); Take only under predicate true on the same peeker; filter before candidate selection; lastSent recorded in the sending iteration",
+			"E-sorted":      "leaf enumerators of the C01 backends whose elements do not come from a sorted.KeyValue iterator (memory: map keys, files: directory listing): the slice ranged over for the sends is the argument of a sort/slices sorting call that dominates the send",
+			"M-lowest":      "mergedEnumerate: every Ref.Less-controlled edge into the assignment of the merge candidate is the true edge of Less(candidate, current lowest)",
+			"S-sub-bound":   "every declared SubFetch of every blob.SubFetcher implementer + the module functions it hands offset/length to; per reader-building site (NewSectionReader, LimitReader+Seek/CopyN, SubFetch into a container, whole-object success returns): positioned at offset (+ index-row base for containers); container: length operand on every path is size-offset or length under a dominating guard with leaf set {offset,length,size} and sign offset+length<=size; per-blob object: positioned on every path unless offset==0 and limited by a length-derived value; cloud back ends: dependence only",
+			"S-sub-neg":     "per SubFetch implementer: every reader-building site is dominated (own function, caller chain, or nil error of a helper) by offset>=0 and length>=0, and each rejecting edge returns blob.ErrNegativeSubFetch; pure forwarders by contract; cloud back ends noted, not enforced",
+			"S-sub-forward": "per SubFetch call without a container base: ref identical, offset and length linear forms exactly `offset` / `length`; per wrapper: store fields read by SubFetch are a subset of those read by the type's Fetch",
+			"E-refill":      "every loop of a dest-owning enumerator function (all implementers of BlobEnumerator + dest delegates) that starts a sub-enumeration, drains it in a nested receive loop that sends on dest on some iterations only, and repeats: evaluated in all worlds limit 1..6 x sent-before x requested x received x sent-now: request in [1, limit-sent]; success returns only where page full or received < requested by this round; next round only where received >= 1; next cursor = Ref.String() of the last ref received (overwritten in every receive iteration) on every path to the next round",
 		},
 		Run:       runC01,
 		DesignRef: "DESIGN.md §4 C01",
-		Technique: "static analysis: CFG path typestate (channel closed exactly once, inter-procedural by summaries), in-iteration skip-edge reachability for cursor guards, control dependence of sends on limit comparisons, dominance/err==nil-edge rules for tombstones, value-dependence for shard routing, symbolic evaluation of the merge's discard predicate, role classification of loop-carried counters (phi webs and captured cells) plus exhaustive small-world evaluation of the refill protocol's branch conditions",
-		LevelText: "Decides structural necessary conditions only: enumeration channels are always closed exactly once; the named backends' enumerators contain an exclusive cursor guard and a limit bound wired to the send loop; shard routing is one function of the ref; overlay tombstones are written/cleared before success is reported and consulted before yielding; merged enumeration picks the lowest head and suppresses duplicates against the last sent ref; memory and files sort what they range over; a filtering enumerator that refills its page (overlay) asks each round for exactly the missing number, concludes exhaustion only from the round it just ran, repeats only after receiving something, and resumes after the last ref received. Does not decide map semantics for any history, byte equality, sortedness of leaf output, paging completeness or compositions (level 'other').",
+		Technique: "static analysis: CFG path typestate (channel closed exactly once, inter-procedural by summaries), in-iteration skip-edge reachability for cursor guards, control dependence of sends on limit comparisons, dominance/err==nil-edge rules for tombstones, value-dependence for shard routing, symbolic evaluation of the merge's discard predicate, role classification of loop-carried counters (phi webs and captured cells) plus exhaustive small-world evaluation of the refill protocol's branch conditions, linear forms over {offset, length, indexed size} with inter-procedural frames and dominating branch facts for the ranged-fetch bound",
+		LevelText: "Decides structural necessary conditions only: enumeration channels are always closed exactly once; the named backends' enumerators contain an exclusive cursor guard and a limit bound wired to the send loop; shard routing is one function of the ref; overlay tombstones are written/cleared before success is reported and consulted before yielding; merged enumeration picks the lowest head and suppresses duplicates against the last sent ref; memory and files sort what they range over; a filtering enumerator that refills its page (overlay) asks each round for exactly the missing number, concludes exhaustion only from the round it just ran, repeats only after receiving something, and resumes after the last ref received; every ranged fetch is positioned at the requested offset, is limited by the requested length and, where it reads from a container larger than the blob (diskpacked, blobpacked), caps the length by a guard over offset, length and the indexed size, rejects negative ranges with blob.ErrNegativeSubFetch before any reader is built, and wrappers pass the range on unchanged (leaf-set and sign level, overflow not modelled). Does not decide map semantics for any history, byte equality, sortedness of leaf output, paging completeness or compositions (level 'other').",
 	})
 }
 
@@ -53,6 +57,7 @@ func runC01(p *Program, r *Reporter) {
 	c01RuleLimit(p, r, insts)
 	c01RuleSorted(p, r, insts)
 	c01RuleRefill(p, r)
+	c01RuleSubFetch(p, r)
 	c01RuleSRoute(p, r)
 	c01RuleOTomb(p, r)
 	c01RuleMDedup(p, r)
@@ -4495,4 +4500,1619 @@ func c01RuleRefill(p *Program, r *Reporter) {
 	}
 	r.Analysed("refill_loops", n)
 	r.Floor(rule, 4)
+}
+
+// ===========================================================================
+// S-sub-bound / S-sub-neg / S-sub-forward: ranged fetch (blob.SubFetcher)
+//
+// Instance set: every declared SubFetch method of every implementer of
+// blob.SubFetcher (test support excluded; promoted methods are the embedded
+// implementer's). Each method is explored together with the module functions it
+// hands offset/length to ("frames"); values are expressed as linear forms over
+// the leaves OFF (offset parameter), LEN (length parameter), SIZE (the blob's
+// own size: the index-row field the type's Fetch reports as size, of a row
+// looked up by the ref; or the size result of Fetch(ref)) and opaque leaves.
+// All arithmetic claims are at leaf-set / sign level: no overflow, no value
+// ranges.
+
+const (
+	c01TOff = 1 << iota
+	c01TLen
+	c01TRef
+)
+
+const (
+	c01LOff  = "offset"
+	c01LLen  = "length"
+	c01LSize = "size"
+)
+
+const (
+	c01SubOK = iota
+	c01SubViolation
+	c01SubUndecided
+)
+
+type c01SubFieldKey struct {
+	obj *types.TypeName
+	idx int
+}
+
+type c01SubRoot struct {
+	p                *Program
+	named            *types.Named
+	fn               *ssa.Function
+	ref, off, length *ssa.Parameter
+	inScope          bool
+	sizeFields       map[c01SubFieldKey]bool
+	subIface         *types.Interface
+	fetchIface       *types.Interface
+	negErr           *ssa.Global
+	seekStart        int64
+}
+
+type c01SubFrame struct {
+	root   *c01SubRoot
+	fn     *ssa.Function
+	parent *c01SubFrame
+	call   CallSite
+	args   []ssa.Value
+	depth  int
+	taint  map[*ssa.Parameter]int
+}
+
+func (fr *c01SubFrame) child(callee *ssa.Function, c CallSite) *c01SubFrame {
+	return &c01SubFrame{root: fr.root, fn: callee, parent: fr, call: c, args: c.Args(), depth: fr.depth + 1, taint: map[*ssa.Parameter]int{}}
+}
+
+func (fr *c01SubFrame) onStack(fn *ssa.Function) bool {
+	for a := fr; a != nil; a = a.parent {
+		if a.fn == fn {
+			return true
+		}
+	}
+	return false
+}
+
+func (fr *c01SubFrame) argOf(p *ssa.Parameter) ssa.Value {
+	if fr.parent == nil {
+		return nil
+	}
+	for i, q := range fr.fn.Params {
+		if q == p && i < len(fr.args) {
+			return fr.args[i]
+		}
+	}
+	return nil
+}
+
+// c01SubDepends is c01Depends extended to aggregates reached through their
+// address (a struct variable filled by one store and read field by field, a
+// `&T{...}` literal): field-insensitive, an over-approximation of dependence.
+func c01SubDepends(v ssa.Value, target func(ssa.Value) bool) bool {
+	seen := map[ssa.Value]bool{}
+	var walk func(v ssa.Value, depth int) bool
+	allocStores := func(al *ssa.Alloc, depth int) bool {
+		if al.Referrers() == nil {
+			return false
+		}
+		for _, ref := range *al.Referrers() {
+			switch x := ref.(type) {
+			case *ssa.Store:
+				if x.Addr == ssa.Value(al) && walk(x.Val, depth+1) {
+					return true
+				}
+			case *ssa.FieldAddr:
+				if x.Referrers() == nil {
+					continue
+				}
+				for _, r2 := range *x.Referrers() {
+					if st, ok := r2.(*ssa.Store); ok && st.Addr == ssa.Value(x) && walk(st.Val, depth+1) {
+						return true
+					}
+				}
+			case *ssa.IndexAddr:
+				if x.Referrers() == nil {
+					continue
+				}
+				for _, r2 := range *x.Referrers() {
+					if st, ok := r2.(*ssa.Store); ok && st.Addr == ssa.Value(x) && walk(st.Val, depth+1) {
+						return true
+					}
+				}
+			}
+		}
+		return false
+	}
+	walk = func(v ssa.Value, depth int) bool {
+		if v == nil || seen[v] || depth > 80 {
+			return false
+		}
+		seen[v] = true
+		if target(v) {
+			return true
+		}
+		switch x := v.(type) {
+		case *ssa.Alloc:
+			if allocStores(x, depth) {
+				return true
+			}
+		case *ssa.UnOp:
+			if x.Op == token.MUL {
+				if cell, ok := varOf(x.X); ok {
+					if cell != x.X && target(cell) {
+						return true
+					}
+					for _, st := range storesTo(cell) {
+						if walk(st.Val, depth+1) {
+							return true
+						}
+					}
+					if al, isAl := cell.(*ssa.Alloc); isAl && !seen[al] {
+						seen[al] = true
+						if allocStores(al, depth) {
+							return true
+						}
+					}
+				}
+			}
+		}
+		if in, ok := v.(ssa.Instruction); ok {
+			for _, op := range in.Operands(nil) {
+				if *op != nil && walk(*op, depth+1) {
+					return true
+				}
+			}
+		}
+		return false
+	}
+	return walk(v, 0)
+}
+
+func (fr *c01SubFrame) paramTaint(p *ssa.Parameter) int {
+	if t, ok := fr.taint[p]; ok {
+		return t
+	}
+	fr.taint[p] = 0
+	t := 0
+	if fr.parent == nil {
+		switch p {
+		case fr.root.off:
+			t = c01TOff
+		case fr.root.length:
+			t = c01TLen
+		case fr.root.ref:
+			t = c01TRef
+		}
+	} else if a := fr.argOf(p); a != nil {
+		t = fr.parent.taintOf(a)
+	}
+	fr.taint[p] = t
+	return t
+}
+
+// taintOf: which of ref/offset/length the value depends on (dependence level).
+func (fr *c01SubFrame) taintOf(v ssa.Value) int {
+	t := 0
+	c01SubDepends(v, func(x ssa.Value) bool {
+		if p, ok := x.(*ssa.Parameter); ok && p.Parent() == fr.fn {
+			t |= fr.paramTaint(p)
+		}
+		return false
+	})
+	return t
+}
+
+// isRef: v is the ref the ranged fetch was asked for (identity, not dependence).
+func (fr *c01SubFrame) isRef(v ssa.Value) bool {
+	p, ok := originValue(v).(*ssa.Parameter)
+	if !ok || p.Parent() != fr.fn {
+		return false
+	}
+	if fr.parent == nil {
+		return p == fr.root.ref
+	}
+	if a := fr.argOf(p); a != nil {
+		return fr.parent.isRef(a)
+	}
+	return false
+}
+
+// ---- linear forms ----------------------------------------------------------
+
+type c01Lin struct {
+	coef map[string]int64
+	k    int64
+}
+
+func c01LinLeaf(name string) c01Lin { return c01Lin{coef: map[string]int64{name: 1}} }
+
+func (a c01Lin) plus(b c01Lin, sign int64) c01Lin {
+	out := c01Lin{coef: map[string]int64{}, k: a.k + sign*b.k}
+	for n, c := range a.coef {
+		out.coef[n] = c
+	}
+	for n, c := range b.coef {
+		out.coef[n] += sign * c
+		if out.coef[n] == 0 {
+			delete(out.coef, n)
+		}
+	}
+	return out
+}
+
+func (a c01Lin) get(name string) int64 { return a.coef[name] }
+
+// others: leaves other than offset/length/size, sorted.
+func (a c01Lin) others() []string {
+	var out []string
+	for n := range a.coef {
+		if n != c01LOff && n != c01LLen && n != c01LSize {
+			out = append(out, n)
+		}
+	}
+	sort.Strings(out)
+	return out
+}
+
+func (a c01Lin) clean() bool {
+	for n := range a.coef {
+		if strings.HasPrefix(n, "?") {
+			return false
+		}
+	}
+	return true
+}
+
+func (a c01Lin) String() string {
+	var names []string
+	for n := range a.coef {
+		names = append(names, n)
+	}
+	sort.Strings(names)
+	var sb strings.Builder
+	for _, n := range names {
+		c := a.coef[n]
+		show := n
+		if strings.HasPrefix(n, "?") {
+			show = "<opaque>"
+		} else if i := strings.Index(n, "~"); i >= 0 {
+			show = n[:i]
+		}
+		switch {
+		case c == 1 && sb.Len() == 0:
+			sb.WriteString(show)
+		case c == 1:
+			sb.WriteString(" + " + show)
+		case c == -1:
+			sb.WriteString(" - " + show)
+		default:
+			fmt.Fprintf(&sb, " %+d*%s", c, show)
+		}
+	}
+	switch {
+	case sb.Len() == 0:
+		fmt.Fprintf(&sb, "%d", a.k)
+	case a.k > 0:
+		fmt.Fprintf(&sb, " + %d", a.k)
+	case a.k < 0:
+		fmt.Fprintf(&sb, " - %d", -a.k)
+	}
+	return strings.TrimSpace(sb.String())
+}
+
+func c01SubIsInt(t types.Type) bool {
+	b, ok := t.Underlying().(*types.Basic)
+	return ok && b.Info()&types.IsInteger != 0
+}
+
+// c01SubStableStruct: the struct variable behind a field address is written as a
+// whole at most once and never field by field, so two loads of one field agree.
+func c01SubStableStruct(base ssa.Value) bool {
+	al, ok := base.(*ssa.Alloc)
+	if !ok || al.Referrers() == nil {
+		return false
+	}
+	whole := 0
+	for _, ref := range *al.Referrers() {
+		switch x := ref.(type) {
+		case *ssa.Store:
+			if x.Addr == ssa.Value(al) {
+				whole++
+			}
+		case *ssa.FieldAddr:
+			if x.Referrers() == nil {
+				continue
+			}
+			for _, r2 := range *x.Referrers() {
+				if st, ok := r2.(*ssa.Store); ok && st.Addr == ssa.Value(x) {
+					return false
+				}
+			}
+		}
+	}
+	return whole <= 1
+}
+
+func (fr *c01SubFrame) refTarget() func(ssa.Value) bool {
+	return func(x ssa.Value) bool {
+		p, ok := x.(*ssa.Parameter)
+		return ok && p.Parent() == fr.fn && fr.paramTaint(p)&c01TRef != 0
+	}
+}
+
+// isSizeField: field idx of base is the field the type's Fetch reports as the
+// blob's size, and the row it belongs to was looked up with the ref.
+func (fr *c01SubFrame) isSizeField(base ssa.Value, idx int) bool {
+	n := NamedOf(base.Type())
+	if n == nil || !fr.root.sizeFields[c01SubFieldKey{n.Obj(), idx}] {
+		return false
+	}
+	return c01SubDepends(base, fr.refTarget())
+}
+
+func (fr *c01SubFrame) opaque(v ssa.Value) c01Lin { return c01LinLeaf(uniquePath(v)) }
+
+func (fr *c01SubFrame) named(path string) c01Lin {
+	if strings.HasPrefix(path, "?") {
+		return c01LinLeaf(path)
+	}
+	return c01LinLeaf(path + "~" + FuncKey(fr.fn))
+}
+
+// lin renders an integer value as a linear form over offset, length, size and
+// opaque leaves (conversions between integer types are transparent).
+func (fr *c01SubFrame) lin(v ssa.Value, depth int) c01Lin {
+	if depth > 32 || v == nil {
+		return fr.opaque(v)
+	}
+	switch x := v.(type) {
+	case *ssa.Const:
+		if k, ok := ConstInt(x); ok {
+			return c01Lin{coef: map[string]int64{}, k: k}
+		}
+	case *ssa.Convert:
+		if c01SubIsInt(x.Type()) && c01SubIsInt(x.X.Type()) {
+			return fr.lin(x.X, depth+1)
+		}
+	case *ssa.ChangeType:
+		return fr.lin(x.X, depth+1)
+	case *ssa.Parameter:
+		if x.Parent() != fr.fn {
+			break
+		}
+		if fr.parent == nil {
+			switch x {
+			case fr.root.off:
+				return c01LinLeaf(c01LOff)
+			case fr.root.length:
+				return c01LinLeaf(c01LLen)
+			}
+			return fr.named(x.Name())
+		}
+		if a := fr.argOf(x); a != nil {
+			return fr.parent.lin(a, depth+1)
+		}
+	case *ssa.BinOp:
+		switch x.Op {
+		case token.ADD:
+			return fr.lin(x.X, depth+1).plus(fr.lin(x.Y, depth+1), 1)
+		case token.SUB:
+			return fr.lin(x.X, depth+1).plus(fr.lin(x.Y, depth+1), -1)
+		}
+	case *ssa.UnOp:
+		switch x.Op {
+		case token.SUB:
+			return c01Lin{coef: map[string]int64{}}.plus(fr.lin(x.X, depth+1), -1)
+		case token.MUL:
+			if r := resolveLoad(x); r != nil {
+				return fr.lin(r, depth+1)
+			}
+			if fa, ok := x.X.(*ssa.FieldAddr); ok {
+				if fr.isSizeField(fa.X, fa.Field) {
+					return c01LinLeaf(c01LSize)
+				}
+				if c01SubStableStruct(fa.X) {
+					return fr.named(AccessPath(x))
+				}
+			}
+		}
+	case *ssa.Field:
+		if fr.isSizeField(x.X, x.Field) {
+			return c01LinLeaf(c01LSize)
+		}
+	case *ssa.Extract:
+		if call, ok := x.Tuple.(*ssa.Call); ok && c01IsBasic(x.Type(), types.Uint32) && fr.isFetchOfRef(call) {
+			return c01LinLeaf(c01LSize)
+		}
+	case *ssa.Phi:
+		if o := originValue(x); o != ssa.Value(x) {
+			return fr.lin(o, depth+1)
+		}
+	case *ssa.Call:
+		if b, ok := x.Call.Value.(*ssa.Builtin); ok && b.Name() == "len" && len(x.Call.Args) == 1 {
+			return fr.named("len(" + AccessPath(originValue(x.Call.Args[0])) + ")")
+		}
+	}
+	return fr.opaque(v)
+}
+
+// isFetchOfRef: call is Fetch(ctx, ref) on some blob.Fetcher for the ref asked for.
+func (fr *c01SubFrame) isFetchOfRef(call *ssa.Call) bool {
+	c := CallSite{call.Parent(), call}
+	if !c.IsMethod("Fetch", fr.root.fetchIface) {
+		return false
+	}
+	for _, a := range c.Args() {
+		if fr.isRef(a) {
+			return true
+		}
+	}
+	return false
+}
+
+// ---- facts -----------------------------------------------------------------
+
+type c01SubFact struct {
+	fr *c01SubFrame
+	f  CondFact
+}
+
+// factsOn: branch facts known on the edge from->to of this frame (from == nil:
+// at entry of to), plus the facts at every call site up the frame chain.
+func (fr *c01SubFrame) factsOn(from, to *ssa.BasicBlock) []c01SubFact {
+	var out []c01SubFact
+	for _, f := range c01EdgeFacts(from, to) {
+		out = append(out, c01SubFact{fr, f})
+	}
+	for a := fr; a.parent != nil; a = a.parent {
+		for _, f := range FactsAt(a.call.Block()) {
+			out = append(out, c01SubFact{a.parent, f})
+		}
+	}
+	return out
+}
+
+func c01SubNegate(op token.Token) token.Token {
+	switch op {
+	case token.LSS:
+		return token.GEQ
+	case token.LEQ:
+		return token.GTR
+	case token.GTR:
+		return token.LEQ
+	case token.GEQ:
+		return token.LSS
+	case token.EQL:
+		return token.NEQ
+	case token.NEQ:
+		return token.EQL
+	}
+	return op
+}
+
+// rel: the fact as "D op 0" over linear forms (integer comparisons only).
+func (sf c01SubFact) rel() (c01Lin, token.Token, bool) {
+	op, x, y, trueIdx, ok := c01CondCmp(sf.f.Cond)
+	if !ok || !c01SubIsInt(x.Type()) || !c01SubIsInt(y.Type()) {
+		return c01Lin{}, 0, false
+	}
+	if sf.f.Val != (trueIdx == 0) {
+		op = c01SubNegate(op)
+	}
+	return sf.fr.lin(x, 0).plus(sf.fr.lin(y, 0), -1), op, true
+}
+
+func (sf c01SubFact) render() string {
+	d, op, ok := sf.rel()
+	if !ok {
+		return "?"
+	}
+	return d.String() + " " + op.String() + " 0"
+}
+
+// okCall: the fact says that the error result of this call is nil.
+func (sf c01SubFact) okCall() *ssa.Call {
+	cond, val := sf.f.Cond, sf.f.Val
+	for {
+		u, ok := cond.(*ssa.UnOp)
+		if !ok || u.Op != token.NOT {
+			break
+		}
+		cond, val = u.X, !val
+	}
+	bo, ok := cond.(*ssa.BinOp)
+	if !ok || (bo.Op != token.EQL && bo.Op != token.NEQ) {
+		return nil
+	}
+	var other ssa.Value
+	switch {
+	case IsNilConst(bo.Y):
+		other = bo.X
+	case IsNilConst(bo.X):
+		other = bo.Y
+	default:
+		return nil
+	}
+	if (bo.Op == token.EQL) != val || !isErrorType(other.Type()) {
+		return nil
+	}
+	switch x := other.(type) {
+	case *ssa.Extract:
+		call, _ := x.Tuple.(*ssa.Call)
+		return call
+	case *ssa.Call:
+		return x
+	}
+	return nil
+}
+
+// single: D is c*leaf + k with c = +-1 and nothing else.
+func c01SubSingle(d c01Lin, leaf string) (c, k int64, ok bool) {
+	if len(d.coef) != 1 {
+		return 0, 0, false
+	}
+	c = d.coef[leaf]
+	return c, d.k, c == 1 || c == -1
+}
+
+func c01SubImpliesNonNeg(d c01Lin, op token.Token, leaf string) bool {
+	c, k, ok := c01SubSingle(d, leaf)
+	if !ok {
+		return false
+	}
+	if c == 1 {
+		switch op {
+		case token.GEQ, token.EQL:
+			return k <= 0
+		case token.GTR:
+			return k <= 1
+		}
+		return false
+	}
+	switch op {
+	case token.LEQ, token.EQL:
+		return k >= 0
+	case token.LSS:
+		return k >= -1
+	}
+	return false
+}
+
+func c01SubImpliesNegative(d c01Lin, op token.Token, leaf string) bool {
+	c, k, ok := c01SubSingle(d, leaf)
+	if !ok {
+		return false
+	}
+	if c == 1 {
+		switch op {
+		case token.LSS:
+			return k >= 0
+		case token.LEQ, token.EQL:
+			return k >= 1
+		}
+		return false
+	}
+	switch op {
+	case token.GTR:
+		return k <= 0
+	case token.GEQ, token.EQL:
+		return k <= -1
+	}
+	return false
+}
+
+type c01SubRet struct {
+	ret     *ssa.Return
+	results []ssa.Value
+}
+
+// c01SubSuccessReturns: the returns of fn whose error result may be nil (all
+// returns when fn has no error result), results resolved through defer spills.
+func c01SubSuccessReturns(fn *ssa.Function) []c01SubRet {
+	keep := map[*ssa.Return]bool{}
+	hasErr := ErrResultIndex(fn) >= 0
+	if hasErr {
+		for _, nr := range c01MaybeNilReturns(fn) {
+			keep[nr.ret] = true
+		}
+	}
+	var out []c01SubRet
+	for _, ri := range Returns(fn) {
+		if !hasErr || keep[ri.Ret] {
+			out = append(out, c01SubRet{ri.Ret, ri.Results})
+		}
+	}
+	return out
+}
+
+type c01SubGuard struct {
+	sf c01SubFact
+}
+
+// nonNeg: on the edge from->to (and in every caller up the chain) the leaf is
+// known >= 0: by a dominating comparison with a constant, or because a helper
+// returned a nil error and every success return of that helper lies behind such
+// a comparison of the corresponding parameter.
+func (fr *c01SubFrame) nonNeg(from, to *ssa.BasicBlock, leaf string, depth int) (bool, []c01SubGuard) {
+	facts := fr.factsOn(from, to)
+	for _, sf := range facts {
+		if d, op, ok := sf.rel(); ok && c01SubImpliesNonNeg(d, op, leaf) {
+			return true, []c01SubGuard{{sf}}
+		}
+	}
+	if depth >= 3 {
+		return false, nil
+	}
+	for _, sf := range facts {
+		call := sf.okCall()
+		if call == nil {
+			continue
+		}
+		callee := call.Call.StaticCallee()
+		if callee == nil || callee.Blocks == nil || !InModule(callee) || sf.fr.onStack(callee) {
+			continue
+		}
+		cf := sf.fr.child(callee, CallSite{call.Parent(), call})
+		rets := c01SubSuccessReturns(callee)
+		if len(rets) == 0 {
+			continue
+		}
+		all := true
+		var gs []c01SubGuard
+		for _, rt := range rets {
+			// only facts established inside the helper count here
+			found := false
+			for _, f := range FactsAt(rt.ret.Block()) {
+				hf := c01SubFact{cf, f}
+				if d, op, ok := hf.rel(); ok && c01SubImpliesNonNeg(d, op, leaf) {
+					found = true
+					gs = append(gs, c01SubGuard{hf})
+					break
+				}
+			}
+			if !found {
+				all = false
+				break
+			}
+		}
+		if all {
+			return true, gs
+		}
+	}
+	return false, nil
+}
+
+// negOnly: a fact in the frame chain says offset or length is negative here.
+func (fr *c01SubFrame) negOnly(from, to *ssa.BasicBlock) (bool, string) {
+	for _, sf := range fr.factsOn(from, to) {
+		d, op, ok := sf.rel()
+		if !ok {
+			continue
+		}
+		for _, leaf := range []string{c01LLen, c01LOff} {
+			if c01SubImpliesNegative(d, op, leaf) {
+				return true, sf.render()
+			}
+		}
+	}
+	return false, ""
+}
+
+// rejectsWithNegErr: the other edge of the guard leads to a return of
+// blob.ErrNegativeSubFetch.
+func (g c01SubGuard) rejectsWithNegErr(root *c01SubRoot) bool {
+	at := g.sf.f.At
+	if at == nil || len(at.Succs) != 2 {
+		return false
+	}
+	neg := at.Succs[0]
+	if g.sf.f.Val {
+		neg = at.Succs[1]
+	}
+	fn := at.Parent()
+	idx := ErrResultIndex(fn)
+	if idx < 0 {
+		return false
+	}
+	reach := BlocksFrom(neg)
+	for _, ri := range Returns(fn) {
+		if !(ri.Ret.Block() == neg || reach[ri.Ret.Block()]) {
+			continue
+		}
+		if c01SubDepends(ri.Results[idx], func(v ssa.Value) bool { return v == ssa.Value(root.negErr) }) {
+			return true
+		}
+	}
+	return false
+}
+
+// ---- proving that a length operand is bounded -------------------------------
+
+// guard3: some fact on the path relates offset+length to size.
+func (fr *c01SubFrame) guard3(facts []c01SubFact) (int, string) {
+	partial, wrong, unknown := "", "", ""
+	for _, sf := range facts {
+		d, op, ok := sf.rel()
+		if !ok || !d.clean() {
+			if sf.fr.taintOf(sf.f.Cond)&c01TLen != 0 {
+				unknown = "a branch condition on this path depends on length in a form the rule cannot read"
+			}
+			continue
+		}
+		a, b, c := d.get(c01LOff), d.get(c01LLen), d.get(c01LSize)
+		switch {
+		case a != 0 && b != 0 && c != 0:
+			if len(d.others()) == 0 && (a == 1 || a == -1) && a == b && a == -c {
+				if c01SubInRange(a, d.k, op) {
+					return c01SubOK, "length itself, on a path where `" + sf.render() + "` holds (leaf set offset, length, size; sign checked, overflow not modelled)"
+				}
+				wrong = "the only guard relating offset, length and size on this path is `" + sf.render() + "`, which holds when the range overshoots the blob: the cap is applied on the wrong edge"
+				continue
+			}
+			return c01SubOK, "length itself, on a path guarded by `" + sf.render() + "` (leaf set offset, length, size; leaf-set level only)"
+		case b != 0 && c != 0 && a == 0:
+			partial = sf.render()
+		}
+	}
+	switch {
+	case wrong != "":
+		return c01SubViolation, wrong
+	case partial != "":
+		return c01SubViolation, "range cap ignores the offset: on the path where length reaches the reader unchanged the only guard relating length to the blob's size is `" + partial + "`, which does not contain the offset; a range with offset > 0, length <= size and offset+length > size reads past the blob's end into the container"
+	case unknown != "":
+		return c01SubUndecided, unknown
+	}
+	return c01SubViolation, "length reaches the reader unchanged on a path where no guard relates offset+length to the blob's size, although the reader is positioned inside a container larger than the blob"
+}
+
+// c01SubInRange: a*(offset+length-size) + k op 0 implies offset+length <= size.
+func c01SubInRange(a, k int64, op token.Token) bool {
+	if a == 1 {
+		switch op {
+		case token.LEQ, token.EQL:
+			return k >= 0
+		case token.LSS:
+			return k >= -1
+		}
+		return false
+	}
+	switch op {
+	case token.GEQ, token.EQL:
+		return k <= 0
+	case token.GTR:
+		return k <= 1
+	}
+	return false
+}
+
+// prove decides whether the length operand v, as it arrives along from->to, is
+// bounded by the blob. container: the reader is positioned inside something
+// larger than the blob, so the bound must come from the program; otherwise the
+// object is the blob and EOF bounds the read, only "limited by length" is asked.
+func (fr *c01SubFrame) prove(v ssa.Value, from, to *ssa.BasicBlock, container bool, depth int) (int, string) {
+	if depth > 10 {
+		return c01SubUndecided, "length operand is computed too deeply to follow"
+	}
+	for {
+		if x, ok := v.(*ssa.Convert); ok && c01SubIsInt(x.Type()) && c01SubIsInt(x.X.Type()) {
+			v = x.X
+			continue
+		}
+		if x, ok := v.(*ssa.ChangeType); ok {
+			v = x.X
+			continue
+		}
+		break
+	}
+	if ph, ok := v.(*ssa.Phi); ok {
+		if o := originValue(ph); o != ssa.Value(ph) {
+			return fr.prove(o, from, to, container, depth+1)
+		}
+		var oks []string
+		for i, e := range ph.Edges {
+			st, d := fr.prove(e, ph.Block().Preds[i], ph.Block(), container, depth+1)
+			if st != c01SubOK {
+				return st, d
+			}
+			dup := false
+			for _, o := range oks {
+				dup = dup || o == d
+			}
+			if !dup {
+				oks = append(oks, d)
+			}
+		}
+		return c01SubOK, strings.Join(oks, " | ")
+	}
+	if prm, ok := v.(*ssa.Parameter); ok && prm.Parent() == fr.fn && fr.parent != nil {
+		if !fr.lin(v, 0).clean() {
+			if a := fr.argOf(prm); a != nil {
+				return fr.parent.prove(a, nil, fr.call.Block(), container, depth+1)
+			}
+		}
+	}
+	var helper *ssa.Call
+	idx := 0
+	switch x := v.(type) {
+	case *ssa.Extract:
+		helper, _ = x.Tuple.(*ssa.Call)
+		idx = x.Index
+	case *ssa.Call:
+		if b, ok := x.Call.Value.(*ssa.Builtin); ok {
+			if b.Name() == "min" {
+				last := "min() of operands none of which is bounded"
+				for _, a := range x.Call.Args {
+					st, d := fr.prove(a, from, to, container, depth+1)
+					if st == c01SubOK {
+						return st, "min(...) with " + d
+					}
+					last = d
+				}
+				return c01SubUndecided, last
+			}
+		} else {
+			helper = x
+		}
+	}
+	if helper != nil && !fr.isFetchOfRef(helper) {
+		callee := helper.Call.StaticCallee()
+		if callee != nil && callee.Blocks != nil && InModule(callee) && !fr.onStack(callee) {
+			cf := fr.child(callee, CallSite{helper.Parent(), helper})
+			rets := c01SubSuccessReturns(callee)
+			if len(rets) == 0 {
+				return c01SubUndecided, "helper " + FuncKey(callee) + " has no success return"
+			}
+			var oks []string
+			for _, rt := range rets {
+				if idx >= len(rt.results) {
+					return c01SubUndecided, "helper result not found"
+				}
+				st, d := cf.prove(rt.results[idx], nil, rt.ret.Block(), container, depth+1)
+				if st != c01SubOK {
+					return st, "in " + FuncKey(callee) + ": " + d
+				}
+				oks = append(oks, d)
+			}
+			return c01SubOK, "computed by " + FuncKey(callee) + ": " + strings.Join(oks, " | ")
+		}
+	}
+	l := fr.lin(v, 0)
+	facts := fr.factsOn(from, to)
+	lenC, offC, sizeC, others := l.get(c01LLen), l.get(c01LOff), l.get(c01LSize), l.others()
+	if sizeC == 1 && offC == -1 && lenC == 0 && len(others) == 0 && l.k <= 0 {
+		return c01SubOK, "`" + l.String() + "` (what is left of the blob after offset)"
+	}
+	if lenC == 1 && offC == 0 && sizeC == 0 && len(others) == 0 && l.k <= 0 {
+		if !container {
+			return c01SubOK, "length itself (the object read is the blob: its end bounds the read)"
+		}
+		return fr.guard3(facts)
+	}
+	if container {
+		if sizeC > 0 && offC == 0 && lenC == 0 {
+			return c01SubViolation, "capped length `" + l.String() + "` depends on the blob's size but not on the offset: the read overshoots the blob's end by offset bytes"
+		}
+		return c01SubUndecided, "length operand `" + l.String() + "` is neither length under a guard nor size-offset"
+	}
+	for _, sf := range facts {
+		if d, _, ok := sf.rel(); ok && d.get(c01LLen) != 0 && len(d.coef) > 1 {
+			return c01SubOK, "`" + l.String() + "`, assigned under the guard `" + sf.render() + "` on length (the object read is the blob: its end bounds the read)"
+		}
+	}
+	if lenC == 0 && fr.taintOf(v)&c01TLen == 0 {
+		return c01SubViolation, "the reader's limit `" + l.String() + "` does not depend on length: the ranged fetch returns everything from offset to the end of the blob"
+	}
+	return c01SubUndecided, "the reader's limit `" + l.String() + "` depends on length in a form the rule cannot read"
+}
+
+// ---- sites -----------------------------------------------------------------
+
+type c01SubSite struct {
+	fr   *c01SubFrame
+	c    CallSite
+	kind string // "section", "limit", "subfetch"
+}
+
+type c01SubState struct {
+	root      *c01SubRoot
+	frames    []*c01SubFrame
+	sites     []c01SubSite
+	fetches   []c01SubSite // Fetch(ctx, ref) calls on a store
+	externals []c01SubSite // non-module calls that receive offset/length
+	extTaint  int
+	undecided []string
+}
+
+func (st *c01SubState) collect(fr *c01SubFrame) {
+	st.frames = append(st.frames, fr)
+	root := fr.root
+	for _, c := range CallsIn(fr.fn, false) {
+		if c.IsGo() || c.IsDefer() {
+			continue
+		}
+		args := c.Args()
+		switch {
+		case c.IsStatic("io", "", "NewSectionReader") && len(args) == 3:
+			st.sites = append(st.sites, c01SubSite{fr, c, "section"})
+		case c.IsStatic("io", "", "LimitReader") && len(args) == 2:
+			st.sites = append(st.sites, c01SubSite{fr, c, "limit"})
+		case c.IsMethod("SubFetch", root.subIface) && len(args) == 5:
+			st.sites = append(st.sites, c01SubSite{fr, c, "subfetch"})
+		case c.IsMethod("Fetch", root.fetchIface) && len(args) == 3:
+			st.fetches = append(st.fetches, c01SubSite{fr, c, "fetch"})
+		default:
+			t := 0
+			for _, a := range args {
+				t |= fr.taintOf(a)
+			}
+			if t&(c01TOff|c01TLen) == 0 {
+				continue
+			}
+			if _, isBuiltin := c.Common().Value.(*ssa.Builtin); isBuiltin {
+				continue
+			}
+			callee := c.Callee()
+			if callee != nil && callee.Blocks != nil && InModule(callee) {
+				if callee.Parent() != nil {
+					st.undecided = append(st.undecided, fmt.Sprintf("%s passes offset/length to the function literal %s", FuncKey(fr.fn), FuncKey(callee)))
+					continue
+				}
+				if fr.onStack(callee) {
+					continue
+				}
+				if fr.depth >= 4 {
+					st.undecided = append(st.undecided, fmt.Sprintf("offset/length handed down more than 4 calls deep (%s)", FuncKey(callee)))
+					continue
+				}
+				st.collect(fr.child(callee, c))
+				continue
+			}
+			st.externals = append(st.externals, c01SubSite{fr, c, "external"})
+			st.extTaint |= t
+		}
+	}
+	for _, b := range fr.fn.Blocks {
+		for _, in := range b.Instrs {
+			mc, ok := in.(*ssa.MakeClosure)
+			if !ok {
+				continue
+			}
+			for _, bnd := range mc.Bindings {
+				if fr.taintOf(bnd)&(c01TOff|c01TLen) != 0 {
+					st.undecided = append(st.undecided, fmt.Sprintf("%s: offset/length captured by the function literal %s", FuncKey(fr.fn), FuncKey(mc.Fn.(*ssa.Function))))
+					break
+				}
+			}
+		}
+	}
+}
+
+func (s c01SubSite) name() string {
+	n := s.c.CalleeKey()
+	if s.fr.parent != nil {
+		n += " in " + FuncKey(s.fr.fn)
+	}
+	return n
+}
+
+// c01SubSameObj: two reader expressions denote the same opened object.
+func c01SubSameObj(a, b ssa.Value) bool {
+	oa, ob := originValue(a), originValue(b)
+	return oa == ob
+}
+
+type c01SubPos struct {
+	c      CallSite
+	amount ssa.Value
+}
+
+// positioners: calls in the frame's function that move the read position of obj
+// forward from the start: Seek(amount, io.SeekStart) on it, io.CopyN(_, obj, amount).
+func (fr *c01SubFrame) positioners(obj ssa.Value) []c01SubPos {
+	var out []c01SubPos
+	for _, c := range CallsIn(fr.fn, false) {
+		args := c.Args()
+		switch {
+		case c.IsStatic("io", "", "CopyN") && len(args) == 3 && c01SubSameObj(args[1], obj):
+			out = append(out, c01SubPos{c, args[2]})
+		case c.MethodName() == "Seek" && len(args) == 3 && c01SubSameObj(args[0], obj):
+			if k, ok := ConstInt(args[2]); ok && k == fr.root.seekStart {
+				out = append(out, c01SubPos{c, args[1]})
+			}
+		}
+	}
+	return out
+}
+
+// offsetTouches: some other call of the frame's function receives both the
+// object (directly or wrapped) and a value that depends on offset.
+func (fr *c01SubFrame) offsetTouches(obj ssa.Value, except CallSite) bool {
+	o := originValue(obj)
+	for _, c := range CallsIn(fr.fn, false) {
+		if c.Instr == except.Instr {
+			continue
+		}
+		hasObj, hasOff := false, false
+		for _, a := range c.Args() {
+			if originValue(a) == o || c01SubDepends(a, func(v ssa.Value) bool { return v == o }) {
+				hasObj = true
+			}
+			if fr.taintOf(a)&c01TOff != 0 {
+				hasOff = true
+			}
+		}
+		if hasObj && hasOff {
+			return true
+		}
+	}
+	return false
+}
+
+// flowsToReturn: the reader built at the site is (part of) a reader the frame's
+// function returns on a success path. Functions without a reader result keep
+// every site (conservative).
+func (s c01SubSite) flowsToReturn() bool {
+	v := s.c.Value()
+	if v == nil {
+		return false
+	}
+	res := s.fr.fn.Signature.Results()
+	rdIdx := -1
+	for i := 0; i < res.Len(); i++ {
+		if c01SubIsReader(res.At(i).Type()) {
+			rdIdx = i
+			break
+		}
+	}
+	if rdIdx < 0 {
+		return true
+	}
+	for _, rt := range c01SubSuccessReturns(s.fr.fn) {
+		if c01SubDepends(rt.results[rdIdx], func(x ssa.Value) bool { return x == ssa.Value(v) }) {
+			return true
+		}
+	}
+	return false
+}
+
+// unpositionedPath: a path from the function's entry to the sink that neither
+// runs a positioning call nor takes an `offset == 0` edge.
+func (fr *c01SubFrame) unpositionedPath(sink ssa.Instruction, pos []c01SubPos) bool {
+	posBlock := map[*ssa.BasicBlock]ssa.Instruction{}
+	for _, p := range pos {
+		posBlock[p.c.Block()] = p.c.Instr.(ssa.Instruction)
+	}
+	seen := map[*ssa.BasicBlock]bool{}
+	var walk func(b *ssa.BasicBlock) bool
+	walk = func(b *ssa.BasicBlock) bool {
+		if seen[b] {
+			return false
+		}
+		seen[b] = true
+		if pi, ok := posBlock[b]; ok {
+			if b == sink.Block() && instrIndex(sink) < instrIndex(pi) {
+				return true
+			}
+			return false
+		}
+		if b == sink.Block() {
+			return true
+		}
+		for i, s := range b.Succs {
+			if ifi, ok := b.Instrs[len(b.Instrs)-1].(*ssa.If); ok && len(b.Succs) == 2 && b.Succs[0] != b.Succs[1] {
+				sf := c01SubFact{fr, CondFact{Cond: ifi.Cond, Val: i == 0, At: b}}
+				if d, op, ok := sf.rel(); ok && op == token.EQL && d.k == 0 {
+					if c, _, single := c01SubSingle(d, c01LOff); single && c != 0 {
+						continue // offset == 0 on this edge: nothing to skip
+					}
+				}
+			}
+			if walk(s) {
+				return true
+			}
+		}
+		return false
+	}
+	return walk(fr.fn.Blocks[0])
+}
+
+type c01SubResult struct {
+	status int
+	detail string
+	table  bool // discharged without path reasoning
+}
+
+func (st *c01SubState) line(pos token.Pos) int { return st.root.p.Fset.Position(pos).Line }
+
+// boundSite decides S-sub-bound for a reader-building site; forward is set
+// when a SubFetch call is a plain forward and belongs to S-sub-forward instead.
+func (st *c01SubState) boundSite(s c01SubSite) (res c01SubResult, forward bool) {
+	fr := s.fr
+	args := s.c.Args()
+	at := s.c.Block()
+	fullFetch := func(what string) (c01SubResult, bool) {
+		if neg, why := fr.negOnly(nil, at); neg {
+			return c01SubResult{c01SubOK, "whole-blob mode: this site is reached only where `" + why + "` holds, i.e. with a negative offset/length, which S-sub-neg shows is rejected before", true}, false
+		}
+		return c01SubResult{c01SubViolation, what, false}, false
+	}
+	var reader, n ssa.Value
+	var posL c01Lin
+	switch s.kind {
+	case "section":
+		reader, n = args[0], args[2]
+		posL = fr.lin(args[1], 0)
+	case "subfetch":
+		reader, n = args[0], args[4]
+		posL = fr.lin(args[3], 0)
+	case "limit":
+		reader, n = args[0], args[1]
+		pos := fr.positioners(reader)
+		if len(pos) == 0 {
+			if neg, _ := fr.negOnly(nil, at); !neg && fr.offsetTouches(reader, s.c) {
+				return c01SubResult{c01SubUndecided, "offset reaches a call on the object the limited reader reads, but not as Seek(offset, io.SeekStart) or io.CopyN(_, r, offset): positioning cannot be followed", false}, false
+			}
+			return fullFetch("the reader is limited but never positioned: no Seek(offset, io.SeekStart) / io.CopyN(_, r, offset) on the object it reads, so the range starts at byte 0 whatever the offset")
+		}
+		for i, p := range pos {
+			l := fr.lin(p.amount, 0)
+			if i > 0 && l.String() != posL.String() {
+				return c01SubResult{c01SubUndecided, "the object is positioned by several calls with different amounts", false}, false
+			}
+			posL = l
+		}
+		if posL.get(c01LOff) == 1 && posL.get(c01LLen) == 0 && fr.unpositionedPath(s.c.Instr.(ssa.Instruction), pos) {
+			return c01SubResult{c01SubViolation, "a path reaches the limited reader without positioning the object at offset and without passing an `offset == 0` edge", false}, false
+		}
+	}
+	if posL.get(c01LOff) != 1 || posL.get(c01LLen) != 0 {
+		if s.kind == "subfetch" {
+			return c01SubResult{}, true // judged by S-sub-forward
+		}
+		return fullFetch("the reader is positioned at `" + posL.String() + "`, which is not the requested offset")
+	}
+	container := len(posL.others()) > 0 || posL.get(c01LSize) != 0
+	if s.kind == "subfetch" && !container {
+		return c01SubResult{}, true
+	}
+	where := ""
+	if container {
+		where = "positioned at `" + posL.String() + "` inside a container larger than the blob"
+	} else {
+		if posL.k != 0 {
+			return c01SubResult{c01SubViolation, "the reader is positioned at `" + posL.String() + "`, not at offset", false}, false
+		}
+		if !c01SubDepends(reader, fr.refTarget()) {
+			return c01SubResult{c01SubViolation, "the object read does not depend on the ref asked for", false}, false
+		}
+		where = "positioned at offset on an object opened/looked up by the ref"
+	}
+	status, d := fr.prove(n, nil, at, container, 0)
+	switch status {
+	case c01SubOK:
+		return c01SubResult{c01SubOK, where + "; limit: " + d, false}, false
+	default:
+		return c01SubResult{status, where + "; " + d, false}, false
+	}
+}
+
+// c01SubIsReader: an interface type with a Read method.
+func c01SubIsReader(t types.Type) bool {
+	it, ok := t.Underlying().(*types.Interface)
+	if !ok {
+		return false
+	}
+	for i := 0; i < it.NumMethods(); i++ {
+		if it.Method(i).Name() == "Read" {
+			return true
+		}
+	}
+	return false
+}
+
+// c01SubStoreField names the receiver field a store expression is read from
+// (through type assertions and interface conversions), "" when it is not a field
+// of the method's receiver.
+func c01SubStoreField(fn *ssa.Function, v ssa.Value) string {
+	for i := 0; i < 12; i++ {
+		switch x := v.(type) {
+		case *ssa.Extract:
+			if ta, ok := x.Tuple.(*ssa.TypeAssert); ok && x.Index == 0 {
+				v = ta.X
+				continue
+			}
+		case *ssa.TypeAssert:
+			v = x.X
+			continue
+		case *ssa.ChangeInterface:
+			v = x.X
+			continue
+		case *ssa.MakeInterface:
+			v = x.X
+			continue
+		case *ssa.ChangeType:
+			v = x.X
+			continue
+		case *ssa.UnOp:
+			if x.Op == token.MUL {
+				if fa, ok := x.X.(*ssa.FieldAddr); ok && len(fn.Params) > 0 && originValue(fa.X) == ssa.Value(fn.Params[0]) {
+					return fieldName(fa.X.Type(), fa.Field)
+				}
+				if r := resolveLoad(x); r != nil {
+					v = r
+					continue
+				}
+			}
+		case *ssa.FieldAddr:
+			if len(fn.Params) > 0 && originValue(x.X) == ssa.Value(fn.Params[0]) {
+				return fieldName(x.X.Type(), x.Field)
+			}
+		}
+		break
+	}
+	return ""
+}
+
+// c01SubSizeFields: the struct fields the type's Fetch method returns as the
+// blob's size (followed through static module callees).
+func c01SubSizeFields(fetch *ssa.Function) map[c01SubFieldKey]bool {
+	out := map[c01SubFieldKey]bool{}
+	seen := map[*ssa.Function]bool{}
+	var fromFn func(fn *ssa.Function, idx, depth int)
+	var fromVal func(v ssa.Value, depth int)
+	fromVal = func(v ssa.Value, depth int) {
+		if depth > 8 || v == nil {
+			return
+		}
+		switch x := v.(type) {
+		case *ssa.Convert:
+			fromVal(x.X, depth+1)
+		case *ssa.ChangeType:
+			fromVal(x.X, depth+1)
+		case *ssa.Phi:
+			for _, e := range x.Edges {
+				fromVal(e, depth+1)
+			}
+		case *ssa.UnOp:
+			if x.Op != token.MUL {
+				return
+			}
+			if fa, ok := x.X.(*ssa.FieldAddr); ok {
+				if n := NamedOf(fa.X.Type()); n != nil {
+					out[c01SubFieldKey{n.Obj(), fa.Field}] = true
+				}
+				return
+			}
+			if r := resolveLoad(x); r != nil {
+				fromVal(r, depth+1)
+			}
+		case *ssa.Field:
+			if n := NamedOf(x.X.Type()); n != nil {
+				out[c01SubFieldKey{n.Obj(), x.Field}] = true
+			}
+		case *ssa.Extract:
+			if call, ok := x.Tuple.(*ssa.Call); ok {
+				if callee := call.Call.StaticCallee(); callee != nil && callee.Blocks != nil && InModule(callee) {
+					fromFn(callee, x.Index, depth+1)
+				}
+			}
+		}
+	}
+	fromFn = func(fn *ssa.Function, idx, depth int) {
+		if seen[fn] || depth > 8 {
+			return
+		}
+		seen[fn] = true
+		for _, ri := range Returns(fn) {
+			if idx < len(ri.Results) {
+				fromVal(ri.Results[idx], depth)
+			}
+		}
+	}
+	res := fetch.Signature.Results()
+	for i := 0; i < res.Len(); i++ {
+		if c01IsBasic(res.At(i).Type(), types.Uint32) {
+			fromFn(fetch, i, 0)
+			break
+		}
+	}
+	return out
+}
+
+func c01RuleSubFetch(p *Program, r *Reporter) {
+	const ruleB, ruleN, ruleF = "S-sub-bound", "S-sub-neg", "S-sub-forward"
+	subIface := p.Iface("pkg/blob", "SubFetcher")
+	fetchIface := p.Iface("pkg/blob", "Fetcher")
+	var negErr *ssa.Global
+	if m, ok := p.SSAPkg("pkg/blob").Members["ErrNegativeSubFetch"].(*ssa.Global); ok {
+		negErr = m
+	} else {
+		brokenf("anchor unresolved: pkg/blob.ErrNegativeSubFetch")
+	}
+	seekStart := int64(0)
+	for _, sp := range p.SSA.AllPackages() {
+		if sp.Pkg.Path() == "io" {
+			if nc, ok := sp.Members["SeekStart"].(*ssa.NamedConst); ok {
+				seekStart = nc.Value.Int64()
+			}
+		}
+	}
+	impls := 0
+	for _, n := range p.Implementers(subIface, false) {
+		fn := c01DeclaredMethod(p, n, "SubFetch")
+		if fn == nil || fn.Blocks == nil {
+			continue // promoted from an embedded implementer, which is itself enumerated
+		}
+		impls++
+		root := &c01SubRoot{p: p, named: n, fn: fn, subIface: subIface, fetchIface: fetchIface, negErr: negErr, seekStart: seekStart,
+			inScope: c01ScopePkgs[RelPkg(fn.Pkg.Pkg)], sizeFields: map[c01SubFieldKey]bool{}}
+		off := len(fn.Params) - fn.Signature.Params().Len()
+		for _, prm := range fn.Params[off:] {
+			switch {
+			case root.ref == nil && c01IsRef(prm.Type()):
+				root.ref = prm
+			case c01IsBasic(prm.Type(), types.Int64) && root.off == nil:
+				root.off = prm
+			case c01IsBasic(prm.Type(), types.Int64) && root.length == nil:
+				root.length = prm
+			}
+		}
+		if root.ref == nil || root.off == nil || root.length == nil {
+			brokenf("anchor unresolved: %s does not have the (ctx, ref, offset, length) shape", FuncKey(fn))
+		}
+		fetchFn := c01DeclaredMethod(p, n, "Fetch")
+		if fetchFn == nil {
+			fetchFn, _ = p.MethodOf(n, "Fetch")
+		}
+		if fetchFn != nil && fetchFn.Blocks != nil {
+			root.sizeFields = c01SubSizeFields(fetchFn)
+		}
+		key := FuncKey(fn)
+		site := p.Pos(fn.Pos())
+		st := &c01SubState{root: root}
+		rootFrame := &c01SubFrame{root: root, fn: fn, taint: map[*ssa.Parameter]int{}}
+		st.collect(rootFrame)
+		r.Analysed("subfetch_frames", len(st.frames))
+		r.Analysed("subfetch_sites", len(st.sites)+len(st.externals))
+
+		if !root.inScope {
+			c01SubCloud(r, st, key, site)
+			continue
+		}
+		for _, u := range st.undecided {
+			r.Undecided(ruleB, key+"#shape", site, u)
+		}
+
+		// ---- S-sub-bound per reader-building site; S-sub-forward per forward
+		type negSite struct {
+			fr    *c01SubFrame
+			at    *ssa.BasicBlock
+			what  string
+			where token.Pos
+		}
+		var negSites []negSite
+		var forwards []c01SubSite
+		siteCall := map[ssa.Value]bool{}
+		for _, s := range st.sites {
+			if (s.kind == "section" || s.kind == "limit") && !s.flowsToReturn() {
+				r.Note("S-sub-bound: %s: %s (line %d) builds a reader that no success return hands out; not a range sink", key, s.name(), st.line(s.c.Pos()))
+				continue
+			}
+			if v := s.c.Value(); v != nil {
+				siteCall[v] = true
+			}
+			res, forward := st.boundSite(s)
+			if forward {
+				forwards = append(forwards, s)
+				continue
+			}
+			negSites = append(negSites, negSite{s.fr, s.c.Block(), s.name(), s.c.Pos()})
+			ck := key + "#" + s.name()
+			switch {
+			case res.status == c01SubOK && res.table:
+				r.OKTable(ruleB, ck, p.Pos(s.c.Pos()), res.detail)
+			case res.status == c01SubOK:
+				r.OK(ruleB, ck, p.Pos(s.c.Pos()), res.detail)
+			case res.status == c01SubViolation:
+				r.Violation(ruleB, ck, p.Pos(s.c.Pos()), res.detail)
+			default:
+				r.Undecided(ruleB, ck, p.Pos(s.c.Pos()), res.detail)
+			}
+		}
+		// success returns that hand out a reader not built by any site
+		for _, fr := range st.frames {
+			rdIdx := -1
+			res := fr.fn.Signature.Results()
+			for i := 0; i < res.Len(); i++ {
+				if c01SubIsReader(res.At(i).Type()) {
+					rdIdx = i
+					break
+				}
+			}
+			if rdIdx < 0 {
+				continue
+			}
+			childCall := map[ssa.Value]bool{}
+			for _, cf := range st.frames {
+				if cf.parent == fr {
+					if v := cf.call.Value(); v != nil {
+						childCall[v] = true
+					}
+				}
+			}
+			for _, rt := range c01SubSuccessReturns(fr.fn) {
+				rv := rt.results[rdIdx]
+				if IsNilConst(rv) {
+					continue
+				}
+				if c01SubDepends(rv, func(v ssa.Value) bool { return siteCall[v] || childCall[v] }) {
+					continue
+				}
+				ck := key + "#return in " + FuncKey(fr.fn)
+				pos := p.Pos(rt.ret.Pos())
+				negSites = append(negSites, negSite{fr, rt.ret.Block(), "return in " + FuncKey(fr.fn), rt.ret.Pos()})
+				if neg, why := fr.negOnly(nil, rt.ret.Block()); neg {
+					r.OKTable(ruleB, ck, pos, "whole-blob mode: this success return hands out the unlimited object only where `"+why+"` holds, i.e. with a negative offset/length, which S-sub-neg shows is rejected before")
+				} else if fr.taintOf(rv)&(c01TOff|c01TLen) == 0 {
+					r.Violation(ruleB, ck, pos, "a success return of the ranged fetch hands out a reader that depends on neither offset nor length and passes through no range limiter: the whole object is returned")
+				} else {
+					r.Undecided(ruleB, ck, pos, "a success return hands out a reader that depends on offset/length but is not built by io.NewSectionReader, io.LimitReader, a SubFetch call or a checked helper")
+				}
+			}
+		}
+
+		// ---- S-sub-forward
+		fetchStores := map[string]bool{}
+		if fetchFn != nil {
+			for _, c := range CallsIn(fetchFn, false) {
+				if (c.IsMethod("Fetch", fetchIface) || c.IsMethod("SubFetch", subIface)) && len(c.Args()) > 0 {
+					if f := c01SubStoreField(fetchFn, c.Args()[0]); f != "" {
+						fetchStores[f] = true
+					}
+				}
+			}
+		}
+		for _, s := range forwards {
+			fr := s.fr
+			args := s.c.Args()
+			ck := key + "#" + AccessPath(originValue(args[0])) + ".SubFetch"
+			if f := c01SubStoreField(fr.fn, args[0]); f != "" {
+				ck = key + "#" + f + ".SubFetch"
+			}
+			posL, nL := fr.lin(args[3], 0), fr.lin(args[4], 0)
+			pos := p.Pos(s.c.Pos())
+			exactOff := posL.String() == c01LOff
+			exactLen := nL.String() == c01LLen
+			switch {
+			case fr.isRef(args[2]) && exactOff && exactLen:
+				r.OK(ruleF, ck, pos, "ref, offset and length are passed on unchanged (the callee is an implementer of blob.SubFetcher and is checked itself)")
+			case fr.isRef(args[2]) && exactOff:
+				status, d := fr.prove(args[4], nil, s.c.Block(), false, 0)
+				switch status {
+				case c01SubOK:
+					r.OK(ruleF, ck, pos, "ref and offset are passed on unchanged; length: "+d)
+				case c01SubViolation:
+					r.Violation(ruleF, ck, pos, "offset is passed on unchanged but the length argument is `"+nL.String()+"`: "+d)
+				default:
+					r.Undecided(ruleF, ck, pos, "offset is passed on unchanged but the length argument is `"+nL.String()+"`: "+d)
+				}
+			default:
+				what := fmt.Sprintf("the forwarded range is (offset argument `%s`, length argument `%s`)", posL.String(), nL.String())
+				if !fr.isRef(args[2]) {
+					what += ", for a ref other than the one asked for, without re-basing offset into a container"
+				}
+				r.Violation(ruleF, ck, pos, what+": a forwarding SubFetch must pass ref, offset and length through unchanged")
+			}
+		}
+		var used, foreign []string
+		for _, s := range append(append([]c01SubSite(nil), st.sites...), st.fetches...) {
+			if s.kind != "subfetch" && s.kind != "fetch" {
+				continue
+			}
+			f := c01SubStoreField(s.fr.fn, s.c.Args()[0])
+			switch {
+			case f == "" || s.fr.parent != nil:
+				foreign = append(foreign, "?"+s.name())
+			case !fetchStores[f]:
+				foreign = append(foreign, f)
+				used = append(used, f)
+			default:
+				used = append(used, f)
+			}
+		}
+		if len(used)+len(foreign) > 0 {
+			sort.Strings(used)
+			ck := key + "#stores"
+			var fs []string
+			for f := range fetchStores {
+				fs = append(fs, f)
+			}
+			sort.Strings(fs)
+			switch {
+			case fetchFn == nil || len(fetchStores) == 0:
+				r.Undecided(ruleF, ck, site, "the type's Fetch method reads from no store field the rule can name")
+			case len(foreign) > 0 && strings.HasPrefix(foreign[0], "?"):
+				r.Undecided(ruleF, ck, site, "SubFetch reads from a store that is not a field of the receiver: "+strings.Join(foreign, ", "))
+			case len(foreign) > 0:
+				r.Violation(ruleF, ck, site, fmt.Sprintf("SubFetch reads from %s, which Fetch never reads from (Fetch reads %s)", strings.Join(foreign, ", "), strings.Join(fs, ", ")))
+			default:
+				r.OKTable(ruleF, ck, site, fmt.Sprintf("every store SubFetch reads from (%s) is one Fetch reads from (%s); order and conditions of the selection are not compared", strings.Join(c01SubUniq(used), ", "), strings.Join(fs, ", ")))
+			}
+		}
+
+		// ---- S-sub-neg: every reader-building site lies behind offset >= 0 and length >= 0
+		var bad []string
+		var guards []c01SubGuard
+		for _, ns := range negSites {
+			for _, leaf := range []string{c01LOff, c01LLen} {
+				ok, gs := ns.fr.nonNeg(nil, ns.at, leaf, 0)
+				if !ok {
+					bad = append(bad, fmt.Sprintf("%s (line %d) can be reached with a negative %s", ns.what, st.line(ns.where), leaf))
+					continue
+				}
+				guards = append(guards, gs...)
+			}
+		}
+		wrongErr := ""
+		for _, g := range guards {
+			if !g.rejectsWithNegErr(root) {
+				wrongErr = fmt.Sprintf("the rejecting edge of `%s` in %s does not lead to a return of blob.ErrNegativeSubFetch", g.sf.render(), FuncKey(g.sf.f.At.Parent()))
+			}
+		}
+		switch {
+		case len(negSites) == 0 && len(forwards) > 0:
+			r.OKTable(ruleN, key, site, fmt.Sprintf("pure forwarder: offset and length are only handed to SubFetch of other implementers (%d calls), each of which is checked", len(forwards)))
+		case len(negSites) == 0:
+			r.Undecided(ruleN, key, site, "no reader-building site found in this implementer")
+		case len(bad) > 0:
+			r.Violation(ruleN, key, site, "negative offset/length is not rejected before the read: "+strings.Join(c01First(bad, 3), "; "))
+		case wrongErr != "":
+			r.Violation(ruleN, key, site, wrongErr)
+		default:
+			r.OK(ruleN, key, site, fmt.Sprintf("all %d reader-building sites (and whole-object returns) are dominated, in their own function, in a caller on the chain from SubFetch, or through the nil error of a helper, by offset >= 0 and length >= 0; every rejecting edge leads to a return of blob.ErrNegativeSubFetch", len(negSites)))
+		}
+	}
+	r.Analysed("subfetch_implementers", impls)
+	r.Floor(ruleB, 10)
+	r.Floor(ruleN, 7)
+	r.Floor(ruleF, 5)
+}
+
+func c01SubUniq(s []string) []string {
+	var out []string
+	for i, x := range s {
+		if i == 0 || x != s[i-1] {
+			out = append(out, x)
+		}
+	}
+	return out
+}
+
+// c01SubCloud: implementers outside the C01 quantifier (s3, gcs, azure): the
+// range is served by a remote API; only dependence is decided, and a failure is
+// noted, not reported (the property does not quantify over these back ends).
+func c01SubCloud(r *Reporter, st *c01SubState, key, site string) {
+	const ruleB, ruleN = "S-sub-bound", "S-sub-neg"
+	want := c01TOff | c01TLen | c01TRef
+	if st.extTaint&want == want {
+		r.OKTable(ruleB, key+"#range-request", site, fmt.Sprintf("outside the C01 quantifier (remote API): ref, offset and length all reach calls that leave the module (%d calls); dependence only, what the remote end returns is not decided", len(st.externals)))
+	} else {
+		r.Note("S-sub-bound: %s (outside the C01 quantifier, not enforced): offset, length and ref do not all reach a call that leaves the module", key)
+	}
+	var bad []string
+	n := 0
+	for _, s := range append(append([]c01SubSite(nil), st.externals...), st.sites...) {
+		n++
+		for _, leaf := range []string{c01LOff, c01LLen} {
+			if ok, _ := s.fr.nonNeg(nil, s.c.Block(), leaf, 0); !ok {
+				bad = append(bad, fmt.Sprintf("%s (line %d) can be reached with a negative %s", s.name(), st.line(s.c.Pos()), leaf))
+			}
+		}
+	}
+	if len(bad) == 0 && n > 0 {
+		r.OK(ruleN, key, site, fmt.Sprintf("outside the C01 quantifier (remote API): all %d calls that receive offset/length are dominated by offset >= 0 and length >= 0", n))
+	} else {
+		r.Note("S-sub-neg: %s (outside the C01 quantifier, not enforced): %s", key, strings.Join(c01First(bad, 4), "; "))
+	}
 }
